@@ -34,7 +34,8 @@ import (
 const (
 	c08T        = 200 * time.Millisecond
 	c08Eps      = 50 * time.Millisecond
-	c08Slow     = 60 * time.Millisecond  // slow-in-time reply
+	c08Slow     = 60 * time.Millisecond  // slow-in-time reply (rank not said: rank 2)
+	c08Step     = 30 * time.Millisecond  // one rank of delay of a slow-in-time reply (lat 1, 2, 3 -> 30, 60, 90 ms)
 	c08Late     = 400 * time.Millisecond // slow-late reply
 	c08Settle   = c08T + c08Eps + 15*time.Millisecond
 	c08Hard     = c08T + 1500*time.Millisecond // a call that has not returned by now never returns in time
@@ -46,6 +47,7 @@ type c08NodeSpec struct {
 	Ver    string `json:"ver"` // "ok" | "fail": does the node answer its version query during THIS submission
 	Out    string `json:"out"`
 	Reason string `json:"reason"`
+	Lat    int    `json:"lat"` // "slowok" / "slowerr": rank of the delay (0: the default, 60 ms)
 }
 
 // c08CallSpec is one submission of a history on one instance.
@@ -66,6 +68,39 @@ type c08Scenario struct {
 	Nodes   []c08NodeSpec `json:"nodes"`
 	Calls   []c08CallSpec `json:"calls"`
 	MaxConc int           `json:"maxConc"` // scatter scenarios
+	// Conf is the node list of every kind of submission on this instance: kind -> peers of the pool
+	// (1-based).  A kind that is not mentioned is configured with the whole pool.
+	Conf map[string][]int `json:"conf"`
+}
+
+var c08Kinds = []string{"att", "agg", "proposal", "syncmsg", "contrib", "bcsub", "scsub", "prep"}
+
+// confOf returns the peers (1-based, increasing) configured for a kind on a pool of `pool` peers.
+func (sc *c08Scenario) confOf(kind string, pool int) []int {
+	out := []int{}
+	l, ok := sc.Conf[kind]
+	if !ok || sc.Sub == "immediate" {
+		for i := 1; i <= pool; i++ {
+			out = append(out, i)
+		}
+		return out
+	}
+	for _, i := range l {
+		if i >= 1 && i <= pool {
+			out = append(out, i)
+		}
+	}
+	sort.Ints(out)
+	return out
+}
+
+// confAll is the whole configuration as it is written to the trace.
+func (sc *c08Scenario) confAll(pool int) map[string][]int {
+	m := map[string][]int{}
+	for _, k := range c08Kinds {
+		m[k] = sc.confOf(k, pool)
+	}
+	return m
 }
 
 // calls returns the history with defaults filled in.
@@ -287,6 +322,14 @@ func c08ErrorText(reason string, client string) string {
 	}
 }
 
+// c08Err is the error value of a reply shape ("deadline": what a node client that gave up hands back).
+func c08Err(reason string, client string) error {
+	if reason == "deadline" {
+		return fmt.Errorf("failed to call POST endpoint: %w", context.DeadlineExceeded)
+	}
+	return errors.New(c08ErrorText(reason, client))
+}
+
 func (n *c08Node) submit(ctx context.Context, elems []any) error {
 	ids := make([]int, len(elems))
 	for i, e := range elems {
@@ -332,9 +375,13 @@ func (n *c08Node) submit(ctx context.Context, elems []any) error {
 			live = false
 		}
 		if n.spec.Reason != "none" && n.spec.Reason != "" {
-			err = errors.New(c08ErrorText(n.spec.Reason, n.spec.Client))
+			err = c08Err(n.spec.Reason, n.spec.Client)
 		}
 	case "accept":
+	case "slowerr":
+		// a rejection (of whatever shape) that takes a while, still well within the time-out
+		live = wait(c08Delay(n.spec.Lat))
+		err = c08Err(n.spec.Reason, n.spec.Client)
 	case "error":
 		reason := n.spec.Reason
 		if reason == "attMixed" {
@@ -346,9 +393,9 @@ func (n *c08Node) submit(ctx context.Context, elems []any) error {
 				live = wait(8 * time.Millisecond)
 			}
 		}
-		err = errors.New(c08ErrorText(reason, n.spec.Client))
+		err = c08Err(reason, n.spec.Client)
 	case "slowok":
-		live = wait(c08Slow)
+		live = wait(c08Delay(n.spec.Lat))
 	case "late":
 		live = wait(c08Late)
 	default: // hang
@@ -367,6 +414,14 @@ func (n *c08Node) submit(ctx context.Context, elems []any) error {
 		n.anyErr = true
 	}
 	return err
+}
+
+// c08Delay is the delay of a slow-in-time reply of rank lat.
+func c08Delay(lat int) time.Duration {
+	if lat <= 0 {
+		return c08Slow
+	}
+	return time.Duration(lat) * c08Step
 }
 
 func c08Any[T any](in []*T) []any {
@@ -519,10 +574,11 @@ func c08BuildPayload(ctx context.Context, kind string, items int) (*c08Payload, 
 // ---------------------------------------------------------------------------------------------
 // services
 
-func c08Maps[T any](nodes []c08All, conv func(c08All) T) map[string]T {
-	m := make(map[string]T, len(nodes))
-	for i, n := range nodes {
-		m[fmt.Sprintf("node%d", i+1)] = conv(n)
+// c08Maps is the node list of one kind: the peers configured for it, by address.
+func c08Maps[T any](nodes []c08All, sel []int, conv func(c08All) T) map[string]T {
+	m := make(map[string]T, len(sel))
+	for _, i := range sel {
+		m[fmt.Sprintf("node%d", i)] = conv(nodes[i-1])
 	}
 	return m
 }
@@ -543,19 +599,21 @@ func c08NewService(ctx context.Context, sc *c08Scenario, nodes []c08All) (c08Sub
 			immediate.WithProposalPreparationsSubmitter(n),
 		)
 	}
+	// every kind of submission has its own node list on the ONE instance
+	of := func(kind string) []int { return sc.confOf(kind, len(nodes)) }
 	return multinode.New(ctx,
 		multinode.WithLogLevel(zerolog.Disabled),
 		multinode.WithClientMonitor(nullmetrics.New()),
 		multinode.WithTimeout(c08T),
 		multinode.WithProcessConcurrency(int64(sc.Conc)),
-		multinode.WithProposalSubmitters(c08Maps(nodes, func(n c08All) eth2client.ProposalSubmitter { return n })),
-		multinode.WithAttestationsSubmitters(c08Maps(nodes, func(n c08All) eth2client.AttestationsSubmitter { return n })),
-		multinode.WithAggregateAttestationsSubmitters(c08Maps(nodes, func(n c08All) eth2client.AggregateAttestationsSubmitter { return n })),
-		multinode.WithProposalPreparationsSubmitters(c08Maps(nodes, func(n c08All) eth2client.ProposalPreparationsSubmitter { return n })),
-		multinode.WithBeaconCommitteeSubscriptionsSubmitters(c08Maps(nodes, func(n c08All) eth2client.BeaconCommitteeSubscriptionsSubmitter { return n })),
-		multinode.WithSyncCommitteeMessagesSubmitters(c08Maps(nodes, func(n c08All) eth2client.SyncCommitteeMessagesSubmitter { return n })),
-		multinode.WithSyncCommitteeSubscriptionsSubmitters(c08Maps(nodes, func(n c08All) eth2client.SyncCommitteeSubscriptionsSubmitter { return n })),
-		multinode.WithSyncCommitteeContributionsSubmitters(c08Maps(nodes, func(n c08All) eth2client.SyncCommitteeContributionsSubmitter { return n })),
+		multinode.WithProposalSubmitters(c08Maps(nodes, of("proposal"), func(n c08All) eth2client.ProposalSubmitter { return n })),
+		multinode.WithAttestationsSubmitters(c08Maps(nodes, of("att"), func(n c08All) eth2client.AttestationsSubmitter { return n })),
+		multinode.WithAggregateAttestationsSubmitters(c08Maps(nodes, of("agg"), func(n c08All) eth2client.AggregateAttestationsSubmitter { return n })),
+		multinode.WithProposalPreparationsSubmitters(c08Maps(nodes, of("prep"), func(n c08All) eth2client.ProposalPreparationsSubmitter { return n })),
+		multinode.WithBeaconCommitteeSubscriptionsSubmitters(c08Maps(nodes, of("bcsub"), func(n c08All) eth2client.BeaconCommitteeSubscriptionsSubmitter { return n })),
+		multinode.WithSyncCommitteeMessagesSubmitters(c08Maps(nodes, of("syncmsg"), func(n c08All) eth2client.SyncCommitteeMessagesSubmitter { return n })),
+		multinode.WithSyncCommitteeSubscriptionsSubmitters(c08Maps(nodes, of("scsub"), func(n c08All) eth2client.SyncCommitteeSubscriptionsSubmitter { return n })),
+		multinode.WithSyncCommitteeContributionsSubmitters(c08Maps(nodes, of("contrib"), func(n c08All) eth2client.SyncCommitteeContributionsSubmitter { return n })),
 	)
 }
 
@@ -745,12 +803,24 @@ func (h *c08History) observeCall(ctx context.Context, ci int, attempt int) ([]ve
 	for i, e := range payload.elems {
 		index[e] = i
 	}
+	// The nodes of this submission are the peers configured for ITS kind; the other peers of the pool
+	// get a script too, so that a call that reaches one of them is seen (and explained by nothing).
 	raw := make([]*c08Node, len(call.Nodes))
+	mine := make([]bool, len(call.Nodes))
+	nMine := 0
+	for _, i := range sc.confOf(call.Kind, len(call.Nodes)) {
+		mine[i-1] = true
+		nMine++
+	}
 	allQuick := true
 	var enteredOnce sync.Once
 	for i, ns := range call.Nodes {
 		raw[i] = &c08Node{idx: i + 1, spec: ns, kind: call.Kind, index: index, items: payload.items, closed: h.closed,
 			release: h.release[ci], firstCall: -1}
+		if !mine[i] {
+			raw[i].spec.Out = "accept"
+			continue
+		}
 		if ns.Out == "held" {
 			raw[i].onEnter = func() { enteredOnce.Do(func() { close(h.entered[ci]) }) }
 		}
@@ -759,7 +829,7 @@ func (h *c08History) observeCall(ctx context.Context, ci int, attempt int) ([]ve
 		}
 	}
 	conc := h.conc
-	needOffer := conc >= len(raw) || allQuick
+	needOffer := conc >= nMine || allQuick
 
 	var retMu sync.Mutex
 	returned := false
@@ -793,7 +863,10 @@ func (h *c08History) observeCall(ctx context.Context, ci int, attempt int) ([]ve
 		r := returned
 		retMu.Unlock()
 		settled, offeredOK := true, true
-		for _, n := range raw {
+		for i, n := range raw {
+			if !mine[i] {
+				continue
+			}
 			n.mu.Lock()
 			complete := n.entered > 0 && n.returned == n.entered
 			whole := n.entered > 0 && c08Whole(n.chunks, payload.items)
@@ -856,7 +929,7 @@ func (h *c08History) observeCall(ctx context.Context, ci int, attempt int) ([]ve
 
 	suspect := !r
 	for i, s := range snaps {
-		if !s.called || !c08Whole(s.chunks, payload.items) {
+		if mine[i] && (!s.called || !c08Whole(s.chunks, payload.items)) {
 			if needOffer {
 				suspect = true
 			}
@@ -864,7 +937,7 @@ func (h *c08History) observeCall(ctx context.Context, ci int, attempt int) ([]ve
 		if !s.called {
 			continue
 		}
-		if conc >= len(raw) && c08ClassCall(s.first, noisy) == "late" {
+		if conc >= nMine && c08ClassCall(s.first, noisy) == "late" {
 			suspect = true
 		}
 		if r && rErr != nil && s.complete && !s.anyErr && c08ClassT(s.last, noisy) == "before" {
@@ -908,7 +981,7 @@ func (h *c08History) observeCall(ctx context.Context, ci int, attempt int) ([]ve
 		head = "NextCall"
 	}
 	lines := []verifsupport.Ev{{"sc": sc.Sc, "ev": head, "call": ci + 1, "calls": len(h.calls), "sub": sc.Sub, "kind": call.Kind, "conc": conc, "items": items,
-		"nodes": call.Nodes, "T": c08T.Milliseconds(), "noiseUs": noise.Microseconds(), "noisy": noisy, "attempt": attempt + 1}}
+		"nodes": call.Nodes, "conf": sc.confAll(len(call.Nodes)), "T": c08T.Milliseconds(), "noiseUs": noise.Microseconds(), "noisy": noisy, "attempt": attempt + 1}}
 	for _, e := range evs {
 		lines = append(lines, e.ev)
 	}
@@ -932,7 +1005,7 @@ func c08Stalled(lines []verifsupport.Ev) bool {
 
 func c08Scatter(sc *c08Scenario) []verifsupport.Ev {
 	lines := []verifsupport.Ev{{"sc": sc.Sc, "ev": "Reset", "sub": "scatter", "kind": "att", "conc": 1, "items": sc.Items,
-		"nodes": []c08NodeSpec{}, "T": 0, "noiseUs": 0, "noisy": false}}
+		"nodes": []c08NodeSpec{}, "conf": sc.confAll(0), "T": 0, "noiseUs": 0, "noisy": false}}
 	for conc := 0; conc <= sc.MaxConc; conc++ {
 		var mu sync.Mutex
 		extents := [][2]int{}
